@@ -20,6 +20,7 @@ func init() {
 		Category: "model_checking",
 		Rule: "(a) every sequence over {Write(piece), Flush}^<=d (Flush first, repeated Flush, Flush with nothing pending included) for every accelerated flate setting and for gzip/zlib, closed at the end; " +
 			"(b) every string over {a,b} up to length 9 / {a,b,c} up to 6 with a Flush after every prefix length (the bit position a block ends on is a function of the data); " +
+			"(c) for every accelerated setting every data size 1..700 (3000 thorough) of three content kinds: Write, Flush, Write 100 more, Flush (the number of bits pending when the sync marker is written sweeps all its values); " +
 			"oracle at every Flush()==nil on the bytes emitted so far; non-trivial = at least one Flush happened after at least one byte was written",
 		Assumptions: []string{"compress/flate and the reference inflater stand for 'any conforming inflater'"},
 		Quick:       TierSpec{MaxDev: -1, Shards: 4, ShardDepth: 3, BudgetS: 150},
@@ -83,7 +84,7 @@ func c10Harness(cfg *Cfg) func(x *mc.Exec) {
 	return func(x *mc.Exec) {
 		ki := x.Choose(len(kinds), "cfg")
 		k := kinds[ki]
-		mode := x.Choose(2, "mode")
+		mode := x.Choose(3, "mode")
 		sink := &env.Sink{}
 		r, err := newRun(k, sink)
 		if err != nil {
@@ -109,6 +110,30 @@ func c10Harness(cfg *Cfg) func(x *mc.Exec) {
 			return true
 		}
 		switch mode {
+		case 2: // every size 1..N of three content kinds, Flush, a little more, Flush: the bit position at which the
+			// flushed block ends and the number of bits still pending in the bit buffer sweep all their values
+			if !k.Accelerated() {
+				return
+			}
+			N := 700
+			if cfg.Thorough {
+				N = 3000
+			}
+			ck := []string{"text", "r3", "rand"}[x.Choose(3, "content")]
+			n := 1 + x.Choose(N, "size")
+			d := ladderData(ck, cfg.Seed)
+			if _, _, ok := r.do(x, "C10", opWrite, d[:n], fmt.Sprintf("W(%s,%d)", ck, n)); !ok {
+				return
+			}
+			if !flush() {
+				return
+			}
+			if _, _, ok := r.do(x, "C10", opWrite, d[n:n+100], "W(100 more)"); !ok {
+				return
+			}
+			if !flush() {
+				return
+			}
 		case 0:
 			ti := x.Choose(len(tiny), "tiny")
 			s := tiny[ti]
@@ -173,4 +198,15 @@ func c10Harness(cfg *Cfg) func(x *mc.Exec) {
 		}
 		x.Outcome(fmt.Sprintf("%s in=%d out=%d", k, len(r.data), len(sink.Buf)))
 	}
+}
+
+var ladderCache = map[string][]byte{}
+
+func ladderData(kind string, seed uint64) []byte {
+	if d, ok := ladderCache[kind]; ok {
+		return d
+	}
+	d := pieces.Make(kind, 3200, seed)
+	ladderCache[kind] = d
+	return d
 }
